@@ -56,11 +56,13 @@ pub fn run(tr: &mut Tr, seed: u64, full: bool, shard: usize, nshards: usize, fra
             let c = CodeSpec::k(*f, *k);
             let opts = read_opts(&c, cfg);
             // alignments: all for small words (or full), boundary set otherwise
-            let aligns: Vec<usize> = if full || w <= 16 {
+            let aligns: Vec<usize> = if w <= 16 {
                 (0..w).collect()
             } else {
                 let mut a: Vec<usize> = vec![0, 1, 2, w - rb - 1, w - rb, w - rb + 1, w - 2, w - 1, w / 2];
-                a.push(rng.random_range(0..w));
+                for _ in 0..(if full { 7 } else { 1 }) {
+                    a.push(rng.random_range(0..w));
+                }
                 a.sort();
                 a.dedup();
                 a.into_iter().filter(|x| *x < w).collect()
